@@ -176,6 +176,29 @@ Theorem C12_stale_output_irrelevant : forall out pages fs1 fs2,
 Proof. exact stale_output_irrelevant. Qed.
 Print Assumptions C12_stale_output_irrelevant.
 
+(* its premise — the pages written do not depend on the old content — for a whole rerun: the output
+   directory is excluded from the search for source files, so the source set, hence (for any way of
+   computing pages from sources) the tree written, is the same *)
+Theorem C12_sources_ignore_output : forall src excl out f1 f2,
+  In out excl -> remove_subtree out f1 = remove_subtree out f2 ->
+  sources src excl f1 = sources src excl f2.
+Proof. exact sources_ignore_output. Qed.
+Print Assumptions C12_sources_ignore_output.
+
+Theorem C12_rerun_stale_irrelevant : forall render src excl out f1 f2,
+  In out excl -> remove_subtree out f1 = remove_subtree out f2 ->
+  restrict out (rerun render src excl out f1) = restrict out (rerun render src excl out f2).
+Proof. exact rerun_stale_irrelevant. Qed.
+Print Assumptions C12_rerun_stale_irrelevant.
+
+(* what the command-line repair repaired: an output directory that is not among the excluded ones *)
+Definition C12_sources_unexcluded_statement : Prop :=
+  forall src excl out f1 f2, remove_subtree out f1 = remove_subtree out f2 ->
+    sources src excl f1 = sources src excl f2.
+Theorem C12_sources_unexcluded_refuted : ~ C12_sources_unexcluded_statement.
+Proof. exact sources_unexcluded_refuted. Qed.
+Print Assumptions C12_sources_unexcluded_refuted.
+
 (* ... because the directory is removed first: merging into it would not have the property *)
 Theorem C12_merge_refuted :
   exists out pages fs1 fs2,
